@@ -54,7 +54,7 @@ def _init_strategy(tier):
             "dim": dim,
             "shape": shape,
             # domain lengths from micro-scale set-ups (spacing below the machine epsilon of single precision) to kilometres
-            "x_range": draw(st.one_of(gen.nice_or_log(1e-2, 1e2, nice=(1.0,)), gen.nice_or_log(1e-2, 1e2, nice=(1.0,)), gen.log_uniform(1e-8, 1e4))),
+            "x_range": draw(st.one_of(gen.nice_or_log(1e-2, 1e2, nice=(1.0,)), gen.nice_or_log(1e-2, 1e2, nice=(1.0,)), gen.log_uniform(1e-8, 1e4), gen.log_uniform(1e-9, 1e-5))),  # last: spacing around / below eps(float32)
             "dtype": draw(gen.precisions),
             "threads": draw(st.sampled_from([1, 2, 4])),
         }
